@@ -41,6 +41,8 @@ def gen_case(rng):
         period = last if last > 0 else 1.0
     else:
         period = last + (rng.randint(1, 40) / 8.0 if dy else round(rng.uniform(0.01, 5), 3))
+    if 0 < period < 0.5:
+        period += 1.0          # keeps the number of iterations to model small
     peak = {"host": "1e9" if not dy else repr(float(2 ** 30)), "link": pts[0][1] if rng.random() < .5 else repr(float(2 ** 20)), "lat": "0.001"}[kind]
     amount = 0
     if kind == "host":
